@@ -118,16 +118,23 @@ Theorem C04_rejected_stores_nothing_refuted :
 Proof. exact refuted_partial. Qed.
 Print Assumptions C04_rejected_stores_nothing_refuted.
 
-(* "stored correctly or rejected", re-decided on the fixed code: still false.  The row-format
-   record {fields:{a:"x"}, tags:{a:"t", a_value:"u"}} is accepted (204); rowsToColumnar's
-   "_value" rename makes field a and tag a_value share one column of 2 entries for 1 row; the
-   flush fails and the accepted row is neither stored nor kept. *)
-Theorem C04_accepted_rows_lost_refuted :
-  r_obs (run_server prod_cfg w_suffix_collision) = [OStatus S2xx; OFlush true] /\
-  r_end (run_server prod_cfg w_suffix_collision) = Completed /\
-  held_rows (r_state (run_server prod_cfg w_suffix_collision)) = 0.
-Proof. exact refuted_lost. Qed.
-Print Assumptions C04_accepted_rows_lost_refuted.
+(* "stored correctly or rejected", re-decided after ac0d5a8: the sequences that lost an accepted row
+   are now inside the guard and store it - {fields:{a}, tags:{a, a_value}} and the chain
+   {fields:{a, a_value}, tags:{a, a_value}}.  No sequence through the modelled fronts that loses an
+   accepted row is known any more; the general statement is C04_rows_conserved_guarded (rows are
+   conserved whenever the decoded batches are rectangular Go maps with an int64 time column).
+   RESIDUAL: it is not proved here that the MessagePack and line-protocol fronts can only produce
+   such batches (that needs lemmas about Arc.MsgPack.Model / Arc.LP.Model owned by other areas);
+   the guard is evaluated on every case of the correspondence instead. *)
+Theorem C04_lost_row_witnesses_fixed :
+  (forallb (sevent_ok prod_cfg) w_suffix_collision = true /\
+   r_obs (run_server prod_cfg w_suffix_collision) = [OStatus S2xx; OFlush false] /\
+   stored_table (r_state (run_server prod_cfg w_suffix_collision)) = [(str_default_cpu, 1%N)]) /\
+  (forallb (sevent_ok prod_cfg) w_suffix_chain = true /\
+   r_obs (run_server prod_cfg w_suffix_chain) = [OStatus S2xx; OFlush false] /\
+   stored_table (r_state (run_server prod_cfg w_suffix_chain)) = [(str_default_cpu, 1%N)]).
+Proof. exact suffix_witnesses_fixed. Qed.
+Print Assumptions C04_lost_row_witnesses_fixed.
 
 (* The msgpack library panic on a nil map key happens inside the handler: answered 500, the
    process lives and the next request is stored. *)
@@ -154,11 +161,14 @@ Proof. exact guarded_example. Qed.
 Example C04_invariant_nonvacuous : Inv init.
 Proof. exact Inv_init. Qed.
 
-(* The guard excludes only class 8 (columns of different lengths): '_' names (2) and ',' names (4)
-   are inside it, the suffix-collision witness is outside. *)
+(* Every sequence above is inside the guard (classes 2 = '_' names and 4 = ',' names are allowed). *)
 Example C04_excluded_classes :
   map (fun evs => fold_left (fun a e => N.lor a (event_class (front_ev prod_cfg e))) evs 0%N)
-      [w_underscore; w_collision; w_suffix_collision; w_guarded] = [2; 4; 8; 2]%N /\
-  forallb (sevent_ok prod_cfg) w_underscore = true /\ forallb (sevent_ok prod_cfg) w_collision = true /\
-  forallb (sevent_ok prod_cfg) w_suffix_collision = false.
+      [w_underscore; w_collision; w_suffix_collision; w_suffix_chain; w_guarded] = [2; 4; 0; 0; 2]%N /\
+  forallb (sevent_ok prod_cfg) w_underscore = true /\ forallb (sevent_ok prod_cfg) w_collision = true.
 Proof. split; [exact witness_classes|vm_compute; repeat split; reflexivity]. Qed.
+
+(* ... and the guard is not trivially true: a batch whose time column is longer than the others
+   (what rowsToColumnar produced before 6c35f6a / ac0d5a8) is outside it. *)
+Example C04_guard_excludes_ragged : forallb event_okb w_ragged = false.
+Proof. vm_compute. reflexivity. Qed.
